@@ -125,7 +125,7 @@ impl Prop for C07 {
     fn assumptions(&self) -> Vec<String> {
         vec!["results are bilinear in entries and vector, so agreement on random rational points is a polynomial-identity test".into()]
     }
-    fn stream_len(&self) -> usize {
+    fn stream_len(&self, _tier: Tier) -> usize {
         400
     }
     fn random_cases(&self, tier: Tier) -> usize {
